@@ -705,6 +705,7 @@ def ob_hetero(law, dim, planeStress):
     # one kind of field per model (the constructors combine the parameters with plain numpy arithmetic: a per-element field next to a per-point
     # field is rejected by numpy's broadcasting, it is not an accepted input), scalars may be mixed in
     patterns = [{names[0]: "e"}, {names[0]: "ep"}, {names[0]: "e", names[1]: "e"}, {nm: "ep" for nm in names}, {nm: "e" for nm in names}, {names[-1]: "e"}, {names[1]: "ep", names[-1]: "ep"}]
+    patterns += [{nm: "e"} for nm in names[1:-1]]          # each parameter alone as the only field of the model
 
     def check(model, params, what):
         nonlocal n
@@ -726,7 +727,12 @@ def ob_hetero(law, dim, planeStress):
                                   cex=dict(law=law, dim=dim, what=what, e=e, p=p_), signature=f"hetero:{law}:{dim}:value", replay=dict(confirmed=True, err_C=ec, err_S=es))
     for pat in patterns:
         params = {k: field(v, pat.get(k, "s")) for k, v in base.items()}
-        m = build(params)
+        try:
+            m = build(params)
+            m.C
+        except (ValueError, TypeError, IndexError) as ex:
+            raise Refuted(f"{law} dim {dim}: parameter fields {pat} (the other parameters scalar) are not accepted: {type(ex).__name__}: {ex}", cex=dict(law=law, dim=dim, fields={k: v for k, v in pat.items()}),
+                          signature=f"hetero:{law}:{dim}:raises", replay=dict(confirmed=True, error=str(ex)[:200]))
         check(m, params, f"fields {pat}")
         # lazy update: re-assign parameters one after the other, read after each
         fk = next(iter(pat.values()))
@@ -822,6 +828,51 @@ def ob_reduction_axes(law, planeStress):
     return Verdict(DISCHARGED, backend="native run of the real law classes: 2-D law vs the block of the 3-D law on the same axes", sub=n)
 
 
+def ob_axes_accepted(law):
+    """orthogonal material axes of any length and sign are accepted (the perpendicularity test is about the ANGLE), non-orthogonal ones are rejected by the constructor."""
+    from EasyFEA import Models
+    E_ = Models.Elastic
+    th, ph = 0.7, 0.5
+    Rz = np.array([[np.cos(th), -np.sin(th), 0], [np.sin(th), np.cos(th), 0], [0, 0, 1]])
+    Ry = np.array([[np.cos(ph), 0, np.sin(ph)], [0, 1, 0], [-np.sin(ph), 0, np.cos(ph)]])
+    Q = Rz @ Ry
+
+    def mk(a1, a2):
+        if law == "TransverselyIsotropic":
+            return E_.TransverselyIsotropic(3, El=11.0, Et=3.0, Gl=1.7, vl=0.26, vt=0.31, axis_l=a1, axis_t=a2)
+        if law == "Orthotropic":
+            return E_.Orthotropic(3, E1=11.0, E2=5.0, E3=3.0, G23=1.1, G13=1.4, G12=1.9, v23=0.2, v13=0.24, v12=0.3, axis_1=a1, axis_2=a2)
+        A = np.random.default_rng(3).normal(size=(6, 6))
+        return E_.Anisotropic(3, A @ A.T + 6 * np.eye(6), useVoigtNotation=False, axis1=a1, axis2=a2)
+    ref = np.asarray(mk(Q[:, 0], Q[:, 1]).C)
+    n = 0
+    for scale in (1.0, 1e4, 1e-3, 37.0):
+        for s1, s2 in ((1, 1), (-1, 1), (1, -1), (-1, -1)):
+            a1, a2 = s1 * scale * Q[:, 0], s2 * scale * 3.0 * Q[:, 1]
+            n += 1
+            try:
+                C = np.asarray(mk(a1, a2).C)
+            except AssertionError as ex:
+                raise Refuted(f"{law}: orthogonal axes {np.round(a1, 3).tolist()}, {np.round(a2, 3).tolist()} (cosine of their angle {float(a1 @ a2) / (np.linalg.norm(a1) * np.linalg.norm(a2)):.1e}) are rejected: {ex}",
+                              cex=dict(law=law, axis_1=a1.tolist(), axis_2=a2.tolist()), signature=f"axes:{law}:rejected", replay=dict(confirmed=True, error=str(ex)[:150]))
+            if law == "Anisotropic" and (s1, s2) != (1, 1):
+                continue            # reversing an axis is a half-turn of the frame: a general anisotropic tensor is not invariant under it (the two other classes are)
+            e = float(np.abs(C - ref).max() / np.abs(ref).max())
+            if e > 1e-10:
+                raise Refuted(f"{law}: the law built on the axes scaled by ({s1 * scale:g}, {s2 * scale * 3:g}) differs from the law on the unit axes by {e:.3e}", signature=f"axes:{law}:length",
+                              replay=dict(confirmed=True, rel_err=e))
+    # clearly non-orthogonal axes (80 and 100 degrees) must not give a law silently
+    for ang in (80.0, 100.0):
+        a2 = np.cos(np.deg2rad(ang)) * Q[:, 0] + np.sin(np.deg2rad(ang)) * Q[:, 1]
+        n += 1
+        try:
+            mk(Q[:, 0], a2)
+            raise Refuted(f"{law}: axes at {ang} degrees are accepted", signature=f"axes:{law}:nonorthogonal", replay=dict(confirmed=True))
+        except AssertionError:
+            pass
+    return Verdict(DISCHARGED, backend="native run", sub=n)
+
+
 HALF_TURNS = {"x": [[1, 0, 0], [0, -1, 0], [0, 0, -1]], "y": [[-1, 0, 0], [0, 1, 0], [0, 0, -1]], "z": [[-1, 0, 0], [0, -1, 0], [0, 0, 1]]}
 
 
@@ -877,6 +928,9 @@ def build(tier, seed):
             obs.append(Ob(f"C11.reduction.axes.{law}.{'planeStress' if ps else 'planeStrain'}", ob_reduction_axes, (law, ps), "X", (fl("_Elastic._Apply_basis_transformation"), fl(f"{law}._Behavior")),
                           bound="6 axis frames (default, in-plane, tilted out of the plane, tilted+spin, generic, quarter turn) x 2 length pairs x homogeneous / per-element parameters, floats",
                           clause="the 2-D law is the zero-out-of-plane-stress (resp. strain) reduction of the 3-D law built on the same axes, whatever their orientation; C S == I", timeout=600))
+    for law in ("TransverselyIsotropic", "Orthotropic", "Anisotropic"):
+        obs.append(Ob(f"C11.axes.accepted.{law}", ob_axes_accepted, (law,), "X", (fl(f"{law}.__init__"), fu("Get_Pmat")), bound="one rotation, 4 lengths x 4 sign pairs",
+                      clause="orthogonal material axes of any length and sign give the same law; non-orthogonal axes are rejected", timeout=300))
     obs.append(Ob("canary.iso.reduction", ob_iso_reduction, (True, True), "P", expect=REFUTED, timeout=120))
     obs.append(Ob("canary.TI.inverse", ob_material_inverse, ("TransverselyIsotropic", True), "P", expect=REFUTED, timeout=300))
     functions = {}
